@@ -9,12 +9,12 @@ use core::ptr::NonNull;
 use vstub::META0;
 
 const NM: usize = 16;
-static CALLS: [AtomicUsize; NM] = [
+vstatic!(CALLS: [AtomicUsize; NM] = [
     AtomicUsize::new(0), AtomicUsize::new(0), AtomicUsize::new(0), AtomicUsize::new(0), AtomicUsize::new(0), AtomicUsize::new(0),
     AtomicUsize::new(0), AtomicUsize::new(0), AtomicUsize::new(0), AtomicUsize::new(0), AtomicUsize::new(0), AtomicUsize::new(0),
-    AtomicUsize::new(0), AtomicUsize::new(0), AtomicUsize::new(0), AtomicUsize::new(0)];
-static ARG_A: AtomicUsize = AtomicUsize::new(0);
-static ARG_B: AtomicUsize = AtomicUsize::new(0);
+    AtomicUsize::new(0), AtomicUsize::new(0), AtomicUsize::new(0), AtomicUsize::new(0)]);
+vstatic!(ARG_A: AtomicUsize = AtomicUsize::new(0));
+vstatic!(ARG_B: AtomicUsize = AtomicUsize::new(0));
 fn addr<T: ?Sized>(t: &T) -> usize { t as *const T as *const () as usize }
 fn hit(m: usize, a: usize, b: usize) { CALLS[m].fetch_add(1, AO::SeqCst); ARG_A.store(a, AO::SeqCst); ARG_B.store(b, AO::SeqCst); }
 /// exactly one call, of method `m`, on the wrapped collector
